@@ -80,6 +80,10 @@ static uint8_t *dupmem(const uint8_t *p, size_t n)
 #endif
 #include <gmssl/pkcs8.h>
 #include <gmssl/pem.h>
+/* exported by libgmssl but not declared in tls.h */
+int tls13_record_encrypt(const BLOCK_CIPHER_KEY *key, const uint8_t iv[12],
+	const uint8_t seq_num[8], const uint8_t *record, size_t recordlen, size_t padding_len,
+	uint8_t *enced_record, size_t *enced_recordlen);
 static int memfile_of(const void *data, size_t len, char path[64])
 {
 	int fd = memfd_create("gmsim_pem", 0);
@@ -453,6 +457,23 @@ void ep_task(void *arg)
 			size_t sent = 77;
 			uint8_t none = 0;
 			if (tls13_send(ep->conn, &none, 0, &sent) != 1 || sent != 0) { io_fail(ep, "send of 0 bytes: sent=%zu", sent); broken = 1; }
+		}
+		if (writes && p->proto == P_TLS13 && (p->cred_mode & 512) && ep->side == 1 && r->n[me_out] > 0 && ep->odd_sent < 4 && !ep->c->knobs.eagain && !broken) {
+			/* what a TLS 1.3 server of another stack sends at any time after the handshake (RFC 8446 4.6.1): a
+			 * NewSessionTicket, protected with its own write key under its next sequence number.  Only the server does
+			 * this here: a server that aborts on a NewSessionTicket from its client would be within its rights. */
+			TLS_CONNECT *cn = ep->conn;
+			const BLOCK_CIPHER_KEY *wk = cn->is_client ? &cn->client_write_key : &cn->server_write_key;
+			const uint8_t *wiv = cn->is_client ? cn->client_write_iv : cn->server_write_iv;
+			uint8_t *wseq = cn->is_client ? cn->client_seq_num : cn->server_seq_num;
+			uint8_t pt[5 + 24], ct[5 + 24 + 64];
+			size_t ctlen = 0;
+			pt[0] = TLS_record_handshake; pt[1] = 3; pt[2] = 3; pt[3] = 0; pt[4] = 24;
+			pt[5] = TLS_handshake_new_session_ticket; pt[6] = 0; pt[7] = 0; pt[8] = 20;
+			for (int k = 0; k < 20; k++) pt[9 + k] = (uint8_t)(0x40 + k + ep->odd_sent);
+			if (tls13_record_encrypt(wk, wiv, wseq, pt, sizeof(pt), 0, ct, &ctlen) != 1
+				|| tls_record_send(ct, ctlen, cn->sock) != 1) { io_fail(ep, "send of a protected handshake record failed"); broken = 1; }
+			else { tls_seq_num_incr(wseq); ep->odd_sent++; }
 		}
 		int reads = (r->mode == RM_DUPLEX) || (r->mode == RM_C2S && ep->side == 1) || (r->mode == RM_S2C && ep->side == 0);
 		if (writes && r->n[me_out] > 0)
